@@ -180,7 +180,8 @@ func candidates(th bool) []*cand {
 		cs = append(cs, mkCand(fmt.Sprintf("A-fork-%d", n), logA, n, true, uint64(2000+n), zero32, ""))
 	}
 	cs = append(cs,
-		mkCand("A-honest-3-other-timestamp", logA, 3, false, 9999, zero32, ""),
+		// (a timestamp that a float64 cannot hold: numbers in what the witness hands out are the numbers it was given)
+		mkCand("A-honest-3-other-timestamp", logA, 3, false, 1<<53+1, zero32, ""),
 		mkCand("A-honest-4-embedded-id", logA, 4, false, 1004, logA.idb[:], ""),
 		mkCand("A-honest-4-embedded-id-of-B", logA, 4, false, 1004, logB.idb[:], ""),
 		mkCand("A-honest-4-flipped-signature", logA, 4, false, 1004, zero32, "flipsig"),
@@ -188,7 +189,11 @@ func candidates(th bool) []*cand {
 		mkCand("size-4-signed-by-unknown-key", logUnknown, 4, false, 1004, zero32, ""),
 	)
 	for n := 0; n <= 2; n++ {
-		cs = append(cs, mkCand(fmt.Sprintf("B-honest-%d", n), logB, n, false, uint64(3000+n), zero32, ""))
+		ts := uint64(3000 + n)
+		if n == 2 {
+			ts = 1<<63 + 3
+		}
+		cs = append(cs, mkCand(fmt.Sprintf("B-honest-%d", n), logB, n, false, ts, zero32, ""))
 	}
 	cs = append(cs, &cand{name: "not-json", raw: []byte("<html>"), valid: func(*logDef) bool { return false }},
 		&cand{name: "json-null", raw: []byte("null"), valid: func(*logDef) bool { return false }},
